@@ -948,6 +948,28 @@ fn run_crl(c: &CrlCase, obs: &mut Obs) -> CheckResult {
     let listed: Vec<(Serial, Time)> = decoded.revoked_certs().iter().map(|e| (e.user_certificate, e.revocation_date)).collect();
     let want: Vec<(Serial, Time)> = entries.iter().map(|e| (e.user_certificate, e.revocation_date)).collect();
     ensure_sig!(listed == want, "c05:crl:entries", "decoded CRL lists {} entries, {} were given, or they differ", listed.len(), want.len());
+    // revocation lookups answer membership in the list that went in — with and
+    // without the serial cache, on both twins (the twins agreeing with each
+    // other is not enough: both could be wrong in the same way)
+    let given: std::collections::BTreeSet<[u8; 20]> = entries.iter().map(|e| e.user_certificate.into_array()).collect();
+    let mut all_probes: Vec<Serial> = entries.iter().map(|e| e.user_certificate).collect();
+    all_probes.extend(probes.iter().copied());
+    for (who, crl) in [("built", &built), ("decoded", &decoded)] {
+        let mut cached = crl.clone();
+        no_panic("Crl::cache_serials", || cached.cache_serials())?;
+        for p in &all_probes {
+            let exp = given.contains(&p.into_array());
+            let plain = no_panic("Crl::contains", || crl.contains(*p))?;
+            let list = no_panic("RevokedCertificates::contains", || crl.revoked_certs().contains(*p))?;
+            let with_cache = no_panic("Crl::contains (cached)", || cached.contains(*p))?;
+            ensure_sig!(
+                plain == exp && list == exp && with_cache == exp,
+                "c05:crl:lookup",
+                "{} CRL: lookup of serial {} gives contains={} revoked_certs().contains={} cached contains={}, the list {} it ({} entries)",
+                who, p, plain, list, with_cache, if exp { "holds" } else { "does not hold" }, entries.len()
+            );
+        }
+    }
     Ok(())
 }
 
